@@ -36,6 +36,10 @@ def submit_real(cls, cfg, base_schema, entry, sch, key=None):
         if entry == 'ctor':
             v = cls(copy.deepcopy(sch), **copy.deepcopy(cfg))
             return ('accepted', canon_schema(v)), None
+        if entry == 'allow_unknown_ctor':
+            # the rule set for unknown fields handed to the constructor is checked like the one assigned later
+            v = cls(copy.deepcopy(base_schema), **dict(copy.deepcopy(cfg), allow_unknown=copy.deepcopy(sch)))
+            return ('accepted', canon_schema(v)), None
         v = cls(copy.deepcopy(base_schema), **copy.deepcopy(cfg))
         before = (canon_schema(v), codec.canon_val(v.allow_unknown) if not isinstance(v.allow_unknown, bool) else v.allow_unknown)
         Validator.clear_caches()
@@ -88,7 +92,7 @@ def submit_real(cls, cfg, base_schema, entry, sch, key=None):
         return ('raised', type(e).__name__), None
 
 
-ENTRIES = ['ctor', 'setter', 'percall', 'setitem', 'update', 'allow_unknown']
+ENTRIES = ['ctor', 'setter', 'percall', 'setitem', 'update', 'allow_unknown', 'allow_unknown_ctor']
 
 
 def submit_with(cls, cfg, entry, sch, rs, ss, where):
@@ -124,6 +128,47 @@ def submit_with(cls, cfg, entry, sch, rs, ss, where):
             return ('raised', type(e).__name__)
     finally:
         real.clear_global_state()
+
+
+def empty_definitions(ctx):
+    """an empty rules set / an empty schema in a registry is a definition like any other: a reference to it is accepted at
+    every position, with module-level and with validator-bound registries"""
+    from cerberus import rules_set_registry, schema_registry
+    shapes = [{'a': 'e0'}, {'a': {'type': 'dict', 'valuesrules': 'e0'}}, {'a': {'type': 'dict', 'keysrules': 'e0'}},
+              {'a': {'type': 'list', 'schema': 'e0'}}, {'a': {'type': 'list', 'items': ['e0', {'type': 'integer'}]}},
+              {'a': {'type': 'dict', 'schema': {'b': 'e0'}}}, {'a': {'anyof': [{'type': 'dict', 'valuesrules': 'e0'}]}},
+              {'a': {'type': 'dict', 'schema': 's0'}}, {'a': {'type': 'dict', 'allow_unknown': 'e0'}}]
+    for sch in shapes:
+        for entry in ('ctor', 'setter', 'update'):
+            for where in ('own', 'module'):
+                if where == 'own':
+                    out = submit_with(Validator, {}, entry, sch, {'e0': {}}, {'s0': {}}, 'own')
+                else:
+                    real.clear_global_state()
+                    rules_set_registry.add('e0', {})
+                    schema_registry.add('s0', {})
+                    try:
+                        Validator.clear_caches()
+                        if entry == 'ctor':
+                            Validator(copy.deepcopy(sch))
+                        else:
+                            v = Validator({'zz0': {}})
+                            if entry == 'setter':
+                                v.schema = copy.deepcopy(sch)
+                            else:
+                                v.schema.update(copy.deepcopy(sch))
+                        out = ('accepted',)
+                    except SchemaError:
+                        out = ('schema_error',)
+                    except Exception as e:
+                        out = ('raised', type(e).__name__)
+                    finally:
+                        real.clear_global_state()
+                ctx.dist('empty_definitions', out[0])
+                if out[0] != 'accepted':
+                    ctx.fail('C04 oracle: a reference to an empty definition in the %s registries is %s through %s'
+                             % (where, out, entry), {'schema': repr(sch), 'registries': where, 'entry': entry})
+                    return
 
 
 def oracle_registries(ctx, case, rng):
@@ -194,7 +239,7 @@ def one(ctx, drv, i, prof, case, n_corrupt):
         if entry == 'setitem':
             key = path[0] if path else next(iter(sch))
             sub = {key: sch[key]}
-        if entry == 'allow_unknown':
+        if entry in ('allow_unknown', 'allow_unknown_ctor'):
             # the corrupted rule set of one field becomes the rule set for unknown fields
             key = path[0] if path else next(iter(sch))
             sub = sch[key]
@@ -206,7 +251,7 @@ def one(ctx, drv, i, prof, case, n_corrupt):
             esch = {'repr': repr(sch)}      # a key outside the model's universe (e.g. a rule name that is None or a tuple)
         jcase = {'schema': esch, 'cfg': codec.enc_val(cfg), 'cls': case.get('cls'), 'entry': entry,
                  'corruption': kind, 'position': repr(path), 'seed': case.get('seed'), 'index': case.get('index')}
-        out, state = submit_real(cls, cfg, base, entry, sub if entry in ('allow_unknown',) else sch, key)
+        out, state = submit_real(cls, cfg, base, entry, sub if entry in ('allow_unknown', 'allow_unknown_ctor') else sch, key)
         # ---- oracle
         if kind == 'valid':
             if out[0] != 'accepted':
@@ -252,7 +297,7 @@ def one(ctx, drv, i, prof, case, n_corrupt):
         m = model_outcome(last)
         if m != out[:len(m)] and not (m[0] == 'accepted' and out[0] == 'accepted'):
             ctx.port_mismatch('entries', jcase, repr(m), repr(out[:2])[:300], 'outcome of the submission differs')
-        elif out[0] == 'accepted' and entry != 'allow_unknown':
+        elif out[0] == 'accepted' and entry not in ('allow_unknown', 'allow_unknown_ctor'):
             ms = codec.canon_jval(last['schema'])
             if ms != out[1]:
                 ctx.port_mismatch('entries', jcase, repr(ms)[:1500], repr(out[1])[:1500], 'exposed schema after acceptance differs')
@@ -275,6 +320,7 @@ def run(ctx, n):
                        'submission vs the real outcome, exposed schema and state after rejection; non-trivial = a corrupted '
                        'schema; distinct by (schema, entry point, corruption)')
     profiles = ['validate', 'normalize', 'of', 'mixed', 'deep']
+    empty_definitions(ctx)
     with Driver() as drv:
         for i, prof, case, g in cases.stream(ctx.seed, n, profiles):
             one(ctx, drv, i, prof, case, 3)
